@@ -6,7 +6,13 @@ VALUES = [0, 1, 5, -3, True, False, 2.5, 5.0, 5.0005, 5.002, 4.9995, float('nan'
           # the same number of keys but other keys; a key that is missing on one side and holds None on the other
           {'a': None}, {'b': None}, {'b': 1, 'c': 5}, {'a': None, 'b': 1}, [{'a': None}], ({'b': None},),
           # floats inside sets: the caller's tolerance applies there as well
-          {1.0}, {1.3}, {1.0004}, {1.0, 5.0}, {5.0004, 1.0004}, frozenset({1.0}), frozenset({1.3}), [{1.0}], [{1.3}], {'s': {1.0}}, {'s': {1.3}}]
+          {1.0}, {1.3}, {1.0004}, {1.0, 5.0}, {5.0004, 1.0004}, frozenset({1.0}), frozenset({1.3}), [{1.0}], [{1.3}], {'s': {1.0}}, {'s': {1.3}},
+          # every element of the first has a partner within the tolerance in the second, but not the other way round
+          {0.0, 0.0005}, {0.0004, 0.002}, frozenset({0.0, 0.0005}), frozenset({0.0004, 0.002}), [{0.0, 0.0005}], [{0.0004, 0.002}],
+          {'k': {0.0, 0.0005}}, {'k': {0.0004, 0.002}}]
+# pairs that are always run in BOTH argument orders (also in the quick tier)
+BOTH_ORDERS = [({0.0, 0.0005}, {0.0004, 0.002}), (frozenset({0.0, 0.0005}), frozenset({0.0004, 0.002})), ([{0.0, 0.0005}], [{0.0004, 0.002}]),
+               ({'k': {0.0, 0.0005}}, {'k': {0.0004, 0.002}}), ({1.0, 5.0}, {5.0004, 1.0004}), ({'a': 1.0, 'b': 2.0}, {'b': 2.0004, 'a': 1.0004})]
 ERRORS = ['ValueError("boom")', 'ZeroDivisionError("z")']
 
 
